@@ -406,7 +406,13 @@ type c06Case struct {
 }
 
 func TestVerifC06Server(t *testing.T) {
-	r := vrt.Start("C06")
+	// The unit also serves C07 (recycled receive buffers never let one client
+	// see another client's query): the driver then sets VERIF_PROP.
+	prop := "C06"
+	if p := os.Getenv("VERIF_PROP"); p != "" {
+		prop = p
+	}
+	r := vrt.Start(prop)
 	debug.SetGCPercent(-1) // keep sync.Pool contents: reuse is then LIFO and deterministic (GOMAXPROCS=1)
 	priors := c06Priors()
 	probes := c06Probes(r.Thorough())
